@@ -548,6 +548,32 @@ static void reduce_case(vf_rng *r)
             RED("mean", a_real_mean(n, pc), s / (q_t)n, s1 / (q_t)n);
             RED("mean_", a_real_mean_(n, p, c), s / (q_t)n, s1 / (q_t)n);
         }
+        /* a mean is always representable even where the sum is not: data near the largest finite value (same sign, mixed signs),
+           judged against the binary128 mean (seeded change C11-H: mean rewritten as sum / n overflows although every element and
+           the mean itself are finite) */
+        if (n >= 2 && n <= 64 && (i % 4) == 1)
+        {
+            a_real *hp = (a_real *)malloc(n * c * sizeof(a_real)), *hc = (a_real *)malloc(n * sizeof(a_real));
+            q_t hs = 0, hs1 = 0;
+            int const same = vf_chance(r, 1, 2);
+            for (size_t j = 0; j < n * c; ++j) { hp[j] = 0; }
+            for (size_t j = 0; j < n; ++j)
+            {
+                a_real v = (a_real)((double)A_REAL_MAX * vf_uniform(r, 0.25, 1.0));
+                if (!(v <= A_REAL_MAX)) { v = A_REAL_MAX; }
+                if (!same && (j & 1)) { v = -v; }
+                hp[j * c] = hc[j] = v;
+                hs += v;
+                hs1 += fabsq((q_t)v);
+            }
+            snprintf(d, sizeof(d), "n=%zu stride %zu, elements in [MAX/4, MAX] %s", n, c, same ? "of one sign" : "of alternating sign");
+            vf_log("means of huge elements %s", d);
+            RED("mean", a_real_mean(n, hc), hs / (q_t)n, hs1 / (q_t)n);
+            RED("mean_", a_real_mean_(n, hp, c), hs / (q_t)n, hs1 / (q_t)n);
+            VF_COUNT("means-of-elements-near-the-largest-finite-value");
+            snprintf(d, sizeof(d), "n=%zu strides %zu/%zu %s", n, c, c2, integer ? "integers" : "reals");
+            free(hp); free(hc);
+        }
         /* the same array handed in twice (with equal and with different strides): still the defining formula */
         {
             size_t cm = c > c2 ? c : c2;
